@@ -45,6 +45,9 @@ def enc_result(ffi, r, cells, tla_type_of_ctype, img8, le_bytes):
     if isinstance(r, bytes): return {"k": "bytes", "data": list(r)}
     if isinstance(r, ffi.CData):
         ct = ffi.typeof(r)
+        if ct.kind == "array":          # the array field of a struct result
+            return {"k": "carr", "vals": [enc_result(ffi, r[i], cells, tla_type_of_ctype, img8, le_bytes)
+                                          for i in range(len(r))]}
         if ct.kind in ("pointer", "array"):
             addr = int(ffi.cast("uintptr_t", r))
             cell = -1
